@@ -6,7 +6,7 @@ Kept as data so that MANIFEST.json, the check driver and the evidence writer agr
 # --------------------------------------------------------------------------------------------- Verus units
 # unit name -> template under units/, rlimit, the functions whose entry must be reachable (vacuity twins)
 UNITS = {
-    "comm": dict(template="units/comm.vt.rs", rlimit=100,
+    "comm": dict(template="units/comm.vt.rs", rlimit=200,
                  about="the poll()-driven exchange loop of communicate.rs (unix variant) against the exchange model"),
 }
 
